@@ -6,8 +6,10 @@
 import RtoscModel.Proofs.PrettyLibc
 import Mathlib.Tactic.Ring
 import Mathlib.Tactic.Linarith
+import Mathlib.Tactic.NormNum
 namespace Rtosc.Libc
 open Rtosc
+set_option linter.unusedSimpArgs false
 
 theorem log2_eq_of_bounds (n k : Nat) (h1 : 2 ^ k ≤ n) (h2 : n < 2 ^ (k + 1)) : Nat.log2 n = k := by
   have hn : n ≠ 0 := by
@@ -326,5 +328,799 @@ theorem hexFixed_facts (w n : Nat) (h : n < 16 ^ w) :
     refine ⟨padZero_length _ _ (hexDigits_length w n h), padZero_all _ _ _ (by decide) (hexDigits_all n), ?_⟩
     unfold padZero
     rw [digitsVal_zeros_left, digitsVal_hexDigits]
+
+/-! ### `takeHex`, `takeDec`, `collectFloat` on runs of digits -/
+
+theorem digitsVal_cons (b : Nat) (c : UInt8) (xs : Bytes) :
+    digitsVal b (c :: xs) = xval c * b ^ xs.length + digitsVal b xs := by
+  unfold digitsVal
+  simp only [List.foldl_cons, Nat.zero_mul, Nat.zero_add]
+  exact foldl_digits_start b xs (xval c)
+
+theorem takeHex_run (xs r : Bytes) (hxs : ∀ c ∈ xs, isxdigit c = true) (hr : isxdigit (hd r) = false) :
+    ∀ v k, takeHex (xs ++ r) v k = (v * 16 ^ xs.length + digitsVal 16 xs, k + xs.length, r) := by
+  induction xs with
+  | nil =>
+    intro v k
+    cases r with
+    | nil => simp [takeHex, digitsVal]
+    | cons c t => simp only [hd_cons] at hr; simp [takeHex, hr, digitsVal]
+  | cons c xs ih =>
+    intro v k
+    have hc := hxs c (by simp)
+    simp only [List.cons_append, takeHex, hc, ↓reduceIte]
+    rw [ih (fun x hx => hxs x (by simp [hx])), digitsVal_cons]
+    simp only [List.length_cons, Prod.mk.injEq, and_true]
+    constructor
+    · ring
+    · omega
+
+theorem takeDec_run (xs r : Bytes) (hxs : ∀ c ∈ xs, isdigit c = true) (hr : isdigit (hd r) = false) :
+    ∀ v k, takeDec (xs ++ r) v k = (v * 10 ^ xs.length + digitsVal 10 xs, k + xs.length, r) := by
+  induction xs with
+  | nil =>
+    intro v k
+    cases r with
+    | nil => simp [takeDec, digitsVal]
+    | cons c t => simp only [hd_cons] at hr; simp [takeDec, hr, digitsVal]
+  | cons c xs ih =>
+    intro v k
+    have hc := hxs c (by simp)
+    obtain ⟨_, _, _, _, hxv, _, _⟩ := isdigit_facts c hc
+    simp only [List.cons_append, takeDec, hc, ↓reduceIte]
+    rw [ih (fun x hx => hxs x (by simp [hx])), digitsVal_cons, hxv]
+    simp only [List.length_cons, Prod.mk.injEq, and_true]
+    constructor
+    · ring
+    · omega
+
+/-- decimal digits are collected in every state -/
+theorem collectFloat_digits (ds r : Bytes) (hds : ∀ c ∈ ds, isdigit c = true) :
+    ∀ gd ge gdot hx le, collectFloat (ds ++ r) ⟨gd, ge, gdot, hx, le⟩ =
+      (ds ++ (collectFloat r ⟨gd || !ds.isEmpty, ge, gdot, hx, le && ds.isEmpty⟩).1,
+        (collectFloat r ⟨gd || !ds.isEmpty, ge, gdot, hx, le && ds.isEmpty⟩).2) := by
+  induction ds with
+  | nil => intro gd ge gdot hx le; simp
+  | cons c ds ih =>
+    intro gd ge gdot hx le
+    have hc := hds c (by simp)
+    simp only [List.cons_append, collectFloat, hc, ↓reduceIte]
+    rw [ih (fun x hx => hds x (by simp [hx]))]
+    simp
+
+/-- hexadecimal digits are collected in a hexadecimal number before the exponent -/
+theorem collectFloat_xdigits (xs r : Bytes) (hxs : ∀ c ∈ xs, isxdigit c = true) :
+    ∀ gd gdot le, collectFloat (xs ++ r) ⟨gd, false, gdot, true, le⟩ =
+      (xs ++ (collectFloat r ⟨gd || !xs.isEmpty, false, gdot, true, le && xs.isEmpty⟩).1,
+        (collectFloat r ⟨gd || !xs.isEmpty, false, gdot, true, le && xs.isEmpty⟩).2) := by
+  induction xs with
+  | nil => intro gd gdot le; simp
+  | cons c xs ih =>
+    intro gd gdot le
+    have hc := hxs c (by simp)
+    simp only [List.cons_append, collectFloat, hc]
+    by_cases hd : isdigit c = true
+    · simp only [hd, ↓reduceIte]
+      rw [ih (fun x hx => hxs x (by simp [hx]))]
+      simp
+    · simp only [hd, Bool.false_eq_true, ↓reduceIte, Bool.not_false, Bool.and_self]
+      rw [ih (fun x hx => hxs x (by simp [hx]))]
+      simp
+
+
+/-! ### hexadecimal float text -/
+
+/-- the text of a `%a` conversion: sign, `0x`, leading digit, fraction digits, `p`, exponent -/
+def hexTxt (neg : Bool) (lead : UInt8) (fr : Bytes) (eneg : Bool) (eds : Bytes) : Bytes :=
+  (if neg then [45] else []) ++ [48, 120, lead] ++ (if fr.isEmpty then [] else 46 :: fr) ++ [112] ++
+    (if eneg then 45 else 43) :: eds
+
+/-- the part of `hexTxt` behind `0x` -/
+def hexBody (lead : UInt8) (fr : Bytes) (eneg : Bool) (eds : Bytes) : Bytes :=
+  lead :: ((if fr.isEmpty then [] else 46 :: fr) ++ 112 :: (if eneg then 45 else 43) :: eds)
+
+theorem hexTxt_eq (neg : Bool) (lead : UInt8) (fr : Bytes) (eneg : Bool) (eds : Bytes) :
+    hexTxt neg lead fr eneg eds = (if neg then [45] else []) ++ 48 :: 120 :: hexBody lead fr eneg eds := by
+  simp [hexTxt, hexBody]
+
+theorem collectFloat_expPart (eneg : Bool) (eds rest : Bytes) (heds : ∀ c ∈ eds, isdigit c = true)
+    (gdot : Bool) :
+    collectFloat (112 :: (if eneg then 45 else 43) :: (eds ++ 41 :: rest)) ⟨true, false, gdot, true, false⟩ =
+      (112 :: (if eneg then 45 else 43) :: eds, 41 :: rest) := by
+  have h1 : isdigit 112 = false := by decide
+  have h2 : isxdigit 112 = false := by decide
+  have h3 : tolower 112 = 112 := by decide
+  have hstop : ∀ gd', collectFloat (41 :: rest) ⟨gd', true, true, true, false⟩ = ([], 41 :: rest) := by
+    intro gd'
+    have a : isdigit 41 = false := by decide
+    simp [collectFloat, a]
+  have h41 : isdigit 41 = false := by decide
+  cases eneg
+  · have b1 : isdigit 43 = false := by decide
+    simp [collectFloat, h1, h2, h3, b1, h41, collectFloat_digits eds (41 :: rest) heds, hstop]
+  · have b1 : isdigit 45 = false := by decide
+    simp [collectFloat, h1, h2, h3, b1, h41, collectFloat_digits eds (41 :: rest) heds, hstop]
+
+
+theorem collectFloat_digit1 (c : UInt8) (r : Bytes) (hc : isdigit c = true) (gd ge gdot hx le : Bool) :
+    collectFloat (c :: r) ⟨gd, ge, gdot, hx, le⟩ =
+      (c :: (collectFloat r ⟨true, ge, gdot, hx, false⟩).1, (collectFloat r ⟨true, ge, gdot, hx, false⟩).2) := by
+  have := collectFloat_digits [c] r (by simpa using hc) gd ge gdot hx le
+  simpa using this
+
+theorem collectFloat_dot (r : Bytes) (gd hx : Bool) :
+    collectFloat (46 :: r) ⟨gd, false, false, hx, false⟩ =
+      (46 :: (collectFloat r ⟨gd, false, true, hx, false⟩).1, (collectFloat r ⟨gd, false, true, hx, false⟩).2) := by
+  have h46a : isdigit 46 = false := by decide
+  have h46b : isxdigit 46 = false := by decide
+  have h46c : tolower 46 = 46 := by decide
+  cases hx <;> simp [collectFloat, h46a, h46b, h46c]
+
+theorem collectFloat_hexBody (lead : UInt8) (fr : Bytes) (eneg : Bool) (eds rest : Bytes)
+    (hlead : isdigit lead = true) (hfr : ∀ c ∈ fr, isxdigit c = true) (heds : ∀ c ∈ eds, isdigit c = true) :
+    collectFloat (hexBody lead fr eneg eds ++ 41 :: rest) ⟨false, false, false, true, false⟩ =
+      (hexBody lead fr eneg eds, 41 :: rest) := by
+  unfold hexBody
+  by_cases hfe : fr.isEmpty = true
+  · simp only [hfe, ↓reduceIte, List.nil_append, List.cons_append]
+    rw [collectFloat_digit1 _ _ hlead, collectFloat_expPart eneg eds rest heds false]
+  · have : (fr.isEmpty) = false := by simpa using hfe
+    simp only [hfe, Bool.false_eq_true, ↓reduceIte, List.cons_append, List.append_assoc]
+    rw [collectFloat_digit1 _ _ hlead, collectFloat_dot, collectFloat_xdigits fr _ hfr]
+    simp only [this, Bool.not_false, Bool.or_true, Bool.and_false]
+    rw [collectFloat_expPart eneg eds rest heds true]
+
+
+theorem takeExp_p (eneg : Bool) (eds : Bytes) (hne : eds ≠ []) (heds : ∀ c ∈ eds, isdigit c = true) :
+    takeExp 112 (112 :: (if eneg then 45 else 43) :: eds) =
+      ((if eneg then -(digitsVal 10 eds : Int) else (digitsVal 10 eds : Int)), []) := by
+  have h := takeDec_run eds [] heds (by decide) 0 0
+  simp only [List.append_nil, Nat.zero_mul, Nat.zero_add] at h
+  have hlen : eds.length ≠ 0 := by
+    intro h0; exact hne (List.length_eq_zero_iff.mp h0)
+  have h3 : tolower 112 = 112 := by decide
+  cases eneg <;> simp [takeExp, h3, h, hlen]
+
+/-- `strtod` on the characters of a hexadecimal float -/
+theorem strtodMag_hex (F : FFmt) (lead : UInt8) (fr : Bytes) (eneg : Bool) (eds : Bytes)
+    (hlead : isdigit lead = true) (hfr : ∀ c ∈ fr, isxdigit c = true)
+    (hne : eds ≠ []) (heds : ∀ c ∈ eds, isdigit c = true) :
+    ∃ n, strtodMag F (48 :: 120 :: hexBody lead fr eneg eds) =
+      some (hexToBits F (dval lead * 16 ^ fr.length + digitsVal 16 fr)
+        ((if eneg then -(digitsVal 10 eds : Int) else (digitsVal 10 eds : Int)) - 4 * (fr.length : Int)), n) := by
+  obtain ⟨_, _, _, _, hxv, _, _⟩ := isdigit_facts lead hlead
+  have hxl : isxdigit lead = true := by simp [isxdigit, hlead]
+  have h120 : tolower 120 = 120 := by decide
+  have hv1 : digitsVal 16 [lead] = dval lead := by simp [digitsVal, hxv]
+  unfold strtodMag hexBody
+  simp only [h120, ↓reduceIte]
+  by_cases hfe : fr.isEmpty = true
+  · have hnil : fr = [] := by simpa using hfe
+    subst hnil
+    have h1 := takeHex_run [lead] (112 :: (if eneg then 45 else 43) :: eds) (by simpa using hxl) (by rw [hd_cons]; decide) 0 0
+    simp only [List.cons_append, List.nil_append, Nat.zero_mul, Nat.zero_add, List.length_singleton, hv1] at h1
+    simp only [List.isEmpty_nil, ↓reduceIte, List.nil_append, h1]
+    simp [takeExp_p eneg eds hne heds, digitsVal]
+  · have hfe' : fr.isEmpty = false := by simpa using hfe
+    have h1 := takeHex_run [lead] (46 :: (fr ++ 112 :: (if eneg then 45 else 43) :: eds)) (by simpa using hxl) (by rw [hd_cons]; decide) 0 0
+    simp only [List.cons_append, List.nil_append, Nat.zero_mul, Nat.zero_add, List.length_singleton, hv1] at h1
+    have h2 := takeHex_run fr (112 :: (if eneg then 45 else 43) :: eds) hfr (by rw [hd_cons]; decide) (dval lead) 0
+    simp only [Nat.zero_add] at h2
+    have hlen : fr.length ≠ 0 := by
+      intro h0; rw [List.length_eq_zero_iff.mp h0] at hfe'; simp at hfe'
+    simp only [hfe', Bool.false_eq_true, ↓reduceIte, List.cons_append, h1, h2, takeExp_p eneg eds hne heds]
+    simp
+
+
+theorem hexBody_length (lead : UInt8) (fr : Bytes) (eneg : Bool) (eds : Bytes) :
+    (hexBody lead fr eneg eds).length =
+      1 + (if fr.isEmpty then 0 else fr.length + 1) + 2 + eds.length := by
+  unfold hexBody
+  split <;> simp <;> omega
+
+/-- `%f` / `%lf` of sscanf on a hexadecimal float that is followed by ")" -/
+theorem scanFloat_hexTxt (F : FFmt) (neg : Bool) (lead : UInt8) (fr : Bytes) (eneg : Bool) (eds rest : Bytes)
+    (hlead : isdigit lead = true) (hfr : ∀ c ∈ fr, isxdigit c = true)
+    (hne : eds ≠ []) (heds : ∀ c ∈ eds, isdigit c = true) :
+    scanFloat F (hexTxt neg lead fr eneg eds ++ 41 :: rest) =
+      some ((if neg then F.signBit else 0) +
+        hexToBits F (dval lead * 16 ^ fr.length + digitsVal 16 fr)
+          ((if eneg then -(digitsVal 10 eds : Int) else (digitsVal 10 eds : Int)) - 4 * (fr.length : Int)),
+        41 :: rest) := by
+  obtain ⟨n, hn⟩ := strtodMag_hex F lead fr eneg eds hlead hfr hne heds
+  have hcf := collectFloat_hexBody lead fr eneg eds rest hlead hfr heds
+  have hlen := hexBody_length lead fr eneg eds
+  have hlen2 : (hexBody lead fr eneg eds).length + 2 ≠ 2 := by omega
+  have h48 : isspace 48 = false := by decide
+  have h45 : isspace 45 = false := by decide
+  have ht48 : tolower 48 = 48 := by decide
+  have ht120 : tolower 120 = 120 := by decide
+  rw [hexTxt_eq]
+  unfold scanFloat
+  cases neg
+  · simp [skipSpace, h48, ht48, ht120, hcf, hn, hlen2]
+  · simp [skipSpace, h45, ht48, ht120, hcf, hn, hlen2]
+
+
+/-! ### finite data: significand and exponent -/
+
+/-- the integer significand of a finite datum (0 for ±0) -/
+def FFmt.sig (F : FFmt) (b : Nat) : Nat := (if F.expField b = 0 then 0 else 2 ^ F.mbits) + F.frac b
+/-- the exponent of the unit in the last place of a finite datum -/
+def FFmt.exq (F : FFmt) (b : Nat) : Int :=
+  if F.expField b = 0 then F.qmin else (F.expField b : Int) - (F.bias : Int) - (F.mbits : Int)
+
+theorem classify_fin (F : FFmt) (b : Nat) (hfin : F.expField b ≠ F.expMax) :
+    (F.sig b = 0 ∧ F.classify b = .zero) ∨ (F.sig b ≠ 0 ∧ F.classify b = .fin (F.sig b) (F.exq b)) := by
+  have hp : 0 < 2 ^ F.mbits := Nat.two_pow_pos _
+  unfold FFmt.classify FFmt.sig FFmt.exq
+  simp only [hfin, ↓reduceIte]
+  by_cases h0 : F.expField b = 0
+  · simp only [h0, ↓reduceIte, Nat.zero_add]
+    by_cases hf : F.frac b = 0
+    · left; simp [hf]
+    · right; simp [hf]
+  · right
+    simp only [h0, ↓reduceIte]
+    refine ⟨by omega, ?_⟩
+    first | rfl | trivial
+
+theorem fmtNat_facts (n : Nat) :
+    fmtNat n ≠ [] ∧ (∀ c ∈ fmtNat n, isdigit c = true) ∧ digitsVal 10 (fmtNat n) = n := by
+  unfold fmtNat
+  by_cases h : n = 0
+  · subst h; simp only [↓reduceIte]; decide
+  · simp only [h, ↓reduceIte]
+    obtain ⟨d, ds, he, _, _⟩ := decDigits_head n (by omega)
+    exact ⟨by rw [he]; simp, decDigits_all_digit n, digitsVal_decDigits n⟩
+
+theorem f64_fields (b : Nat) :
+    f64.sig b < 2 ^ 53 ∧ f64.frac b < 2 ^ 52 ∧ f64.expField b < 2048 ∧
+    f64.mag b = f64.expField b * 2 ^ 52 + f64.frac b ∧
+    b % 2 ^ 64 = (if f64.sign b then 2 ^ 63 else 0) + f64.mag b := by
+  simp only [FFmt.sig, FFmt.expField, FFmt.mag, FFmt.frac, FFmt.sign, FFmt.signBit, f64, Nat.reduceAdd, Nat.reducePow]
+  refine ⟨?_, ?_, ?_, ?_, ?_⟩
+  · by_cases h : b % 9223372036854775808 / 4503599627370496 = 0 <;> simp only [h, ↓reduceIte] <;> omega
+  · omega
+  · omega
+  · omega
+  · by_cases h : b / 9223372036854775808 % 2 = 1 <;> simp only [h, decide_true, decide_false, Bool.false_eq_true, ↓reduceIte] <;> omega
+
+/-- the shape and the value of `%a` output for a finite double -/
+theorem fmtA_fin (B : Nat) (hfin : f64.expField B ≠ 2047) :
+    ∃ lead fr eneg eds, fmtA B = hexTxt (f64.sign B) lead fr eneg eds ∧
+      isdigit lead = true ∧ (∀ c ∈ fr, isxdigit c = true) ∧ stripZeros fr = fr ∧
+      eds ≠ [] ∧ (∀ c ∈ eds, isdigit c = true) ∧
+      ((f64.sig B = 0 ∧ dval lead * 16 ^ fr.length + digitsVal 16 fr = 0) ∨
+       (f64.sig B ≠ 0 ∧ ∃ z : Nat, (dval lead * 16 ^ fr.length + digitsVal 16 fr) * 2 ^ (4 * z) = f64.sig B ∧
+          (if eneg then -(digitsVal 10 eds : Int) else (digitsVal 10 eds : Int)) - 4 * (fr.length : Int) =
+            f64.exq B + 4 * (z : Int))) := by
+  have hmax : f64.expMax = 2047 := by decide
+  rcases classify_fin f64 B (by rw [hmax]; exact hfin) with ⟨hs, hc⟩ | ⟨hs, hc⟩
+  · refine ⟨48, [], false, [48], ?_, by decide, by simp, by decide, by simp, by decide, ?_⟩
+    · unfold fmtA
+      simp only [hc]
+      cases f64.sign B <;> decide
+    · left; exact ⟨hs, by decide⟩
+  · obtain ⟨hsig, hfrac, hef, _, _⟩ := f64_fields B
+    obtain ⟨hflen, hfall, hfval⟩ := hexFixed_facts 13 (f64.frac B) (by
+      have : (16 : Nat) ^ 13 = 2 ^ 52 := by norm_num
+      rw [this]; exact hfrac)
+    obtain ⟨z, hz⟩ := stripZeros_split (hexFixed 13 (f64.frac B))
+    generalize hfr : stripZeros (hexFixed 13 (f64.frac B)) = fr at hz
+    generalize hex : (if f64.expField B = 0 then (-1022 : Int) else (f64.expField B : Int) - 1023) = ex
+    obtain ⟨hn1, hn2, hn3⟩ := fmtNat_facts ex.natAbs
+    refine ⟨if f64.expField B = 0 then 48 else 49, fr, decide (ex < 0), fmtNat ex.natAbs, ?_, ?_, ?_, ?_, hn1, hn2, ?_⟩
+    · unfold fmtA hexTxt
+      simp only [hc, hfr, hex]
+      by_cases hneg : ex < 0 <;> simp [hneg]
+    · split <;> decide
+    · intro c hc'
+      rw [← hfr] at hc'
+      exact hfall c (stripZeros_mem _ c hc')
+    · rw [← hfr]; exact stripZeros_idem _
+    · right
+      refine ⟨hs, z, ?_, ?_⟩
+      · have hlen : fr.length + z = 13 := by
+          have := congrArg List.length hz
+          rw [hflen] at this; simp at this; omega
+        have hv : f64.frac B = digitsVal 16 fr * 16 ^ z := by
+          rw [← hfval, hz, digitsVal_zeros_right]
+        have h16 : (2 : Nat) ^ (4 * z) = 16 ^ z := by
+          rw [Nat.pow_mul]
+        rw [h16, Nat.add_mul, Nat.mul_assoc, ← Nat.pow_add, hlen, ← hv]
+        unfold FFmt.sig
+        have h52 : f64.mbits = 52 := rfl
+        rw [h52]
+        split
+        · simp [dval]
+        · have : dval 49 = 1 := by decide
+          rw [this]; norm_num
+      · have hlen : (fr.length : Int) + z = 13 := by
+          have := congrArg List.length hz
+          rw [hflen] at this; simp at this; omega
+        have hexv : (if decide (ex < 0) = true then -(digitsVal 10 (fmtNat ex.natAbs) : Int) else (digitsVal 10 (fmtNat ex.natAbs) : Int)) = ex := by
+          rw [hn3]
+          by_cases hneg : ex < 0
+          · simp only [hneg, decide_true, ↓reduceIte]; omega
+          · simp only [hneg, decide_false, Bool.false_eq_true, ↓reduceIte]; omega
+        rw [hexv, ← hex]
+        unfold FFmt.exq
+        have hq : f64.qmin = -1074 := by decide
+        have hb : (f64.bias : Int) = 1023 := by decide
+        have hm : (f64.mbits : Int) = 52 := by decide
+        rw [hq, hb, hm]
+        split <;> omega
+
+/-! ### the encoding of a finite datum is `encBits` of its significand and exponent -/
+
+theorem encBits_f64 (B : Nat) (hfin : f64.expField B ≠ 2047) (hs : f64.sig B ≠ 0) :
+    f64.sig B < 2 ^ (f64.mbits + 1) ∧ f64.qmin ≤ f64.exq B ∧
+    (2 ^ f64.mbits ≤ f64.sig B ∨ f64.exq B = f64.qmin) ∧
+    (f64.exq B - f64.qmin + 1).toNat < f64.expMax ∧ -1200 ≤ f64.exq B ∧ f64.exq B + f64.mbits ≤ 1100 ∧
+    encBits f64 (f64.sig B) (f64.exq B) = f64.mag B := by
+  obtain ⟨hsig, hfrac, hef, hmag, _⟩ := f64_fields B
+  have hq : f64.qmin = -1074 := by decide
+  have hb : (f64.bias : Int) = 1023 := by decide
+  have hm : f64.mbits = 52 := by decide
+  have hmax : f64.expMax = 2047 := by decide
+  have hp : 0 < 2 ^ f64.mbits := Nat.two_pow_pos _
+  unfold encBits
+  rw [hmag]
+  unfold FFmt.sig at hs hsig ⊢
+  unfold FFmt.exq
+  rw [hq, hb, hmax]
+  by_cases h0 : f64.expField B = 0
+  · rw [if_pos h0] at hs hsig
+    simp only [h0, ↓reduceIte]
+    rw [hm]; try rw [hm] at hs
+    refine ⟨by omega, by omega, by first | omega | exact Or.inr trivial, by omega, by omega, by omega, ?_⟩
+    have : 0 + f64.frac B < 2 ^ 52 := by omega
+    simp only [this, ↓reduceIte]; omega
+  · rw [if_neg h0] at hs hsig
+    simp only [h0, ↓reduceIte]
+    rw [hm]; try rw [hm] at hs
+    refine ⟨by omega, by omega, by omega, by omega, by omega, by omega, ?_⟩
+    have : ¬ (2 ^ 52 + f64.frac B < 2 ^ 52) := by omega
+    simp only [this, ↓reduceIte]
+    have : ((f64.expField B : Int) - 1023 - ((52 : Nat) : Int) - -1074 + 1).toNat = f64.expField B := by omega
+    rw [this]; omega
+
+theorem f32_fields (b : Nat) :
+    f32.sig b < 2 ^ 24 ∧ f32.frac b < 2 ^ 23 ∧ f32.expField b < 256 ∧
+    f32.mag b = f32.expField b * 2 ^ 23 + f32.frac b ∧
+    b % 2 ^ 32 = (if f32.sign b then 2 ^ 31 else 0) + f32.mag b := by
+  simp only [FFmt.sig, FFmt.expField, FFmt.mag, FFmt.frac, FFmt.sign, FFmt.signBit, f32, Nat.reduceAdd, Nat.reducePow]
+  refine ⟨?_, ?_, ?_, ?_, ?_⟩
+  · by_cases h : b % 2147483648 / 8388608 = 0 <;> simp only [h, ↓reduceIte] <;> omega
+  · omega
+  · omega
+  · omega
+  · by_cases h : b / 2147483648 % 2 = 1 <;> simp only [h, decide_true, decide_false, Bool.false_eq_true, ↓reduceIte] <;> omega
+
+theorem encBits_f32 (b : Nat) (hfin : f32.expField b ≠ 255) (hs : f32.sig b ≠ 0) :
+    f32.sig b < 2 ^ (f32.mbits + 1) ∧ f32.qmin ≤ f32.exq b ∧
+    (2 ^ f32.mbits ≤ f32.sig b ∨ f32.exq b = f32.qmin) ∧
+    (f32.exq b - f32.qmin + 1).toNat < f32.expMax ∧ -1200 ≤ f32.exq b ∧ f32.exq b + f32.mbits ≤ 1100 ∧
+    encBits f32 (f32.sig b) (f32.exq b) = f32.mag b := by
+  obtain ⟨hsig, hfrac, hef, hmag, _⟩ := f32_fields b
+  have hq : f32.qmin = -149 := by decide
+  have hb : (f32.bias : Int) = 127 := by decide
+  have hm : f32.mbits = 23 := by decide
+  have hmax : f32.expMax = 255 := by decide
+  have hp : 0 < 2 ^ f32.mbits := Nat.two_pow_pos _
+  unfold encBits
+  rw [hmag]
+  unfold FFmt.sig at hs hsig ⊢
+  unfold FFmt.exq
+  rw [hq, hb, hmax]
+  by_cases h0 : f32.expField b = 0
+  · rw [if_pos h0] at hs hsig
+    simp only [h0, ↓reduceIte]
+    rw [hm]; try rw [hm] at hs
+    refine ⟨by omega, by omega, by first | omega | exact Or.inr trivial, by omega, by omega, by omega, ?_⟩
+    have : 0 + f32.frac b < 2 ^ 23 := by omega
+    simp only [this, ↓reduceIte]; omega
+  · rw [if_neg h0] at hs hsig
+    simp only [h0, ↓reduceIte]
+    rw [hm]; try rw [hm] at hs
+    refine ⟨by omega, by omega, by omega, by omega, by omega, by omega, ?_⟩
+    have : ¬ (2 ^ 23 + f32.frac b < 2 ^ 23) := by omega
+    simp only [this, ↓reduceIte]
+    have : ((f32.expField b : Int) - 127 - ((23 : Nat) : Int) - -149 + 1).toNat = f32.expField b := by omega
+    rw [this]; omega
+
+/-- **lossless round trip, double**: `%lf` of sscanf reads the `%la` text of a finite double back
+    bit-exactly (the text is followed by ")") -/
+theorem scanFloat_fmtA_f64 (B : Nat) (hB : B < 2 ^ 64) (hfin : f64.expField B ≠ 2047) (rest : Bytes) :
+    scanFloat f64 (fmtA B ++ 41 :: rest) = some (B, 41 :: rest) := by
+  obtain ⟨lead, fr, eneg, eds, htxt, hlead, hfr, _, hne, heds, hval⟩ := fmtA_fin B hfin
+  obtain ⟨_, _, _, hmag, hsplit⟩ := f64_fields B
+  rw [Nat.mod_eq_of_lt hB] at hsplit
+  have hsb : f64.signBit = 2 ^ 63 := by decide
+  rw [htxt, scanFloat_hexTxt f64 _ lead fr eneg eds rest hlead hfr hne heds, hsb]
+  congr 2
+  rcases hval with ⟨hs, hm⟩ | ⟨hs, z, hm, hx⟩
+  · rw [hm, hexToBits_zero]
+    have : f64.mag B = 0 := by
+      rw [hmag]
+      unfold FFmt.sig at hs
+      have hp : 0 < 2 ^ f64.mbits := Nat.two_pow_pos _
+      by_cases h0 : f64.expField B = 0
+      · simp only [h0, ↓reduceIte, Nat.zero_add] at hs; simp [h0, hs]
+      · simp only [h0, ↓reduceIte] at hs; omega
+    omega
+  · obtain ⟨a1, a2, a3, a4, a5, a6, a7⟩ := encBits_f64 B hfin hs
+    rw [hexToBits_exact f64 _ _ (f64.sig B) (f64.exq B) (4 * z) 0 (by simpa using hm) (by push_cast; omega)
+      hs a1 a2 a3 a4 a5 a6, a7]
+    omega
+
+/-! ### `(double)f` -/
+
+theorem sig_eq (F : FFmt) (b : Nat) : F.sig b = (if F.expField b = 0 then 0 else 2 ^ F.mbits) + F.frac b := rfl
+theorem exq_eq (F : FFmt) (b : Nat) :
+    F.exq b = if F.expField b = 0 then F.qmin else (F.expField b : Int) - (F.bias : Int) - (F.mbits : Int) := rfl
+
+/-- the fields of a double assembled from sign, exponent field and fraction -/
+theorem f64_assemble (s : Bool) (ef fr : Nat) (hef : ef < 2048) (hfr : fr < 2 ^ 52) :
+    f64.sign ((if s then 2 ^ 63 else 0) + (ef * 2 ^ 52 + fr)) = s ∧
+    f64.expField ((if s then 2 ^ 63 else 0) + (ef * 2 ^ 52 + fr)) = ef ∧
+    f64.frac ((if s then 2 ^ 63 else 0) + (ef * 2 ^ 52 + fr)) = fr := by
+  simp only [FFmt.expField, FFmt.mag, FFmt.frac, FFmt.sign, FFmt.signBit, f64, Nat.reduceAdd, Nat.reducePow]
+  cases s
+  · simp only [Bool.false_eq_true, ↓reduceIte, decide_eq_false_iff_not]
+    refine ⟨by omega, by omega, by omega⟩
+  · simp only [↓reduceIte, decide_eq_true_eq]
+    refine ⟨by omega, by omega, by omega⟩
+
+/-- `(double)f` of a finite float: same sign, same value -/
+theorem promote_fin (b : Nat) (hfin : f32.expField b ≠ 255) :
+    f64.expField (promote b) ≠ 2047 ∧ promote b < 2 ^ 64 ∧ f64.sign (promote b) = f32.sign b ∧
+    ((f32.sig b = 0 ∧ f64.sig (promote b) = 0) ∨
+     (f32.sig b ≠ 0 ∧ ∃ s : Nat, f64.sig (promote b) = f32.sig b * 2 ^ s ∧ f64.exq (promote b) = f32.exq b - s)) := by
+  have hmax : f32.expMax = 255 := by decide
+  unfold promote
+  rcases classify_fin f32 b (by rw [hmax]; exact hfin) with ⟨hs, hc⟩ | ⟨hs, hc⟩
+  · rw [hc]
+    simp only [FFmt.ofMag]
+    have hsb : f64.signBit = 2 ^ 63 := by decide
+    rw [hsb]
+    obtain ⟨a1, a2, a3⟩ := f64_assemble (f32.sign b) 0 0 (by omega) (by omega)
+    simp only [Nat.zero_mul, Nat.add_zero] at a1 a2 a3
+    refine ⟨by rw [a2]; omega, by split <;> omega, a1, Or.inl ⟨hs, ?_⟩⟩
+    unfold FFmt.sig
+    rw [a2, a3]; rfl
+  · rw [hc]
+    simp only [FFmt.ofMag, FFmt.ofScaled]
+    have hsb : f64.signBit = 2 ^ 63 := by decide
+    rw [hsb]
+    obtain ⟨b1, b2, b3, b4, b5, b6, _⟩ := encBits_f32 b hfin hs
+    have hq32 : f32.qmin = -149 := by decide
+    have hm32 : f32.mbits = 23 := by decide
+    have hx32 : f32.expMax = 255 := by decide
+    rw [hm32] at b1 b3
+    rw [hq32, hx32] at b4
+    rw [hq32] at b2
+    -- normalise the significand to 53 bits
+    have hL : Nat.log2 (f32.sig b) ≤ 23 := by
+      have := (Nat.log2_lt hs).mpr b1; omega
+    generalize hLd : Nat.log2 (f32.sig b) = L at hL
+    have hlo : 2 ^ L ≤ f32.sig b := by rw [← hLd]; exact Nat.log2_self_le hs
+    have hhi : f32.sig b < 2 ^ (L + 1) := by rw [← hLd]; exact Nat.lt_log2_self
+    have hp : (2 : Nat) ^ L * 2 ^ (52 - L) = 2 ^ 52 := by rw [← Nat.pow_add]; congr 1; omega
+    have hp' : (2 : Nat) ^ (L + 1) * 2 ^ (52 - L) = 2 ^ 53 := by rw [← Nat.pow_add]; congr 1; omega
+    have hMlo : 2 ^ 52 ≤ f32.sig b * 2 ^ (52 - L) := by
+      rw [← hp]; exact Nat.mul_le_mul_right _ hlo
+    have hMhi : f32.sig b * 2 ^ (52 - L) < 2 ^ 53 := by
+      rw [← hp']; exact Nat.mul_lt_mul_of_pos_right hhi (Nat.two_pow_pos _)
+    have hq : f64.qmin = -1074 := by decide
+    have hm : f64.mbits = 52 := by decide
+    have hmax64 : f64.expMax = 2047 := by decide
+    have hex := scaled_exact f64 (f32.sig b) (f32.exq b) (f32.sig b * 2 ^ (52 - L)) (f32.exq b - ((52 - L : Nat) : Int))
+      (52 - L) 0 (by simp) (by omega) (by omega) (by rw [hm]; exact hMhi) (by rw [hq]; omega)
+      (Or.inl (by rw [hm]; exact hMlo)) (by rw [hq, hmax64]; omega)
+    rw [hex]
+    unfold encBits
+    rw [hm, hq]
+    have hnlt : ¬ (f32.sig b * 2 ^ (52 - L) < 2 ^ 52) := by omega
+    simp only [hnlt, ↓reduceIte]
+    generalize hEF : (f32.exq b - ((52 - L : Nat) : Int) - -1074 + 1).toNat = EF
+    have hEF1 : (EF : Int) = f32.exq b - ((52 - L : Nat) : Int) + 1075 := by omega
+    obtain ⟨c1, c2, c3⟩ := f64_assemble (f32.sign b) EF (f32.sig b * 2 ^ (52 - L) - 2 ^ 52) (by omega) (by omega)
+    refine ⟨by rw [c2]; omega, ?_, c1, Or.inr ⟨hs, 52 - L, ?_, ?_⟩⟩
+    · have : EF * 2 ^ 52 + (f32.sig b * 2 ^ (52 - L) - 2 ^ 52) < 2 ^ 63 := by omega
+      split <;> omega
+    · rw [sig_eq f64, c2, c3, hm]
+      have : EF ≠ 0 := by omega
+      simp only [this, ↓reduceIte]; omega
+    · rw [exq_eq f64, c2]
+      have : EF ≠ 0 := by omega
+      have hb : (f64.bias : Int) = 1023 := by decide
+      simp only [this, ↓reduceIte, hb, hm]; omega
+
+/-- **lossless round trip, float**: `%f` of sscanf reads the `%a` text of a finite float (promoted
+    to double by printf) back bit-exactly (the text is followed by ")") -/
+theorem scanFloat_fmtA_f32 (b : Nat) (hb : b < 2 ^ 32) (hfin : f32.expField b ≠ 255) (rest : Bytes) :
+    scanFloat f32 (fmtA (promote b) ++ 41 :: rest) = some (b, 41 :: rest) := by
+  obtain ⟨hPfin, _, hPsign, hP⟩ := promote_fin b hfin
+  obtain ⟨lead, fr, eneg, eds, htxt, hlead, hfr, _, hne, heds, hval⟩ := fmtA_fin (promote b) hPfin
+  obtain ⟨_, _, _, hmag, hsplit⟩ := f32_fields b
+  rw [Nat.mod_eq_of_lt hb] at hsplit
+  have hsb : f32.signBit = 2 ^ 31 := by decide
+  rw [htxt, scanFloat_hexTxt f32 _ lead fr eneg eds rest hlead hfr hne heds, hsb, hPsign]
+  congr 2
+  rcases hP with ⟨hs32, hs64⟩ | ⟨hs32, s, hsig, hexq⟩
+  · rcases hval with ⟨_, hm⟩ | ⟨hs, _⟩
+    · rw [hm, hexToBits_zero]
+      have : f32.mag b = 0 := by
+        rw [hmag]
+        unfold FFmt.sig at hs32
+        have hp : 0 < 2 ^ f32.mbits := Nat.two_pow_pos _
+        by_cases h0 : f32.expField b = 0
+        · simp only [h0, ↓reduceIte, Nat.zero_add] at hs32; simp [h0, hs32]
+        · simp only [h0, ↓reduceIte] at hs32; omega
+      omega
+    · exact absurd hs64 hs
+  · rcases hval with ⟨hs, _⟩ | ⟨hs, z, hm, hx⟩
+    · rw [hsig] at hs
+      have : 0 < f32.sig b * 2 ^ s := Nat.mul_pos (by omega) (Nat.two_pow_pos _)
+      omega
+    · obtain ⟨a1, a2, a3, a4, a5, a6, a7⟩ := encBits_f32 b hfin hs32
+      rw [hexToBits_exact f32 _ _ (f32.sig b) (f32.exq b) (4 * z) s (by rw [hm, hsig]) (by rw [hx, hexq]; omega)
+        hs32 a1 a2 a3 a4 a5 a6, a7]
+      omega
+
+/-! ### decimal float text -/
+
+theorem takeDec_count_le : ∀ (s : Bytes) (v k : Nat), k ≤ (takeDec s v k).2.1 := by
+  intro s
+  induction s with
+  | nil => intro v k; simp [takeDec]
+  | cons c r ih =>
+    intro v k
+    simp only [takeDec]
+    split
+    · have := ih (v * 10 + dval c) (k + 1); omega
+    · simp
+
+/-- the decimal branch of `strtodMag` -/
+def strtodDec (F : FFmt) (buf : Bytes) : Option (Nat × Nat) :=
+  let (ip, ik, r1) := takeDec buf 0 0
+  let (m, fk, r2) := match r1 with
+    | 46 :: r' => let (v, k, r'') := takeDec r' ip 0; (v, k, r'')
+    | _ => (ip, 0, r1)
+  if ik + fk = 0 then none
+  else
+    let (ex, r3) := takeExp 101 r2
+    some (decToBits F m (ex - (fk : Int)), buf.length - r3.length)
+
+theorem strtodMag_dec (F : FFmt) (buf : Bytes) :
+    strtodMag F buf = strtodDec F buf ∨ ∃ v, strtodMag F buf = some v := by
+  unfold strtodMag strtodDec
+  simp only []
+  split
+  · right; exact ⟨_, rfl⟩
+  · left; rfl
+
+/-- `strtod` converts something when the buffer starts with a digit -/
+theorem strtodMag_some (F : FFmt) (d : UInt8) (r : Bytes) (hd0 : isdigit d = true) :
+    ∃ v, strtodMag F (d :: r) = some v := by
+  have hk : 1 ≤ (takeDec (d :: r) 0 0).2.1 := by
+    simp only [takeDec, hd0, ↓reduceIte]
+    exact takeDec_count_le r _ _
+  rcases strtodMag_dec F (d :: r) with h | h
+  · rw [h]
+    unfold strtodDec
+    generalize takeDec (d :: r) 0 0 = t at hk
+    obtain ⟨ip, ik, r1⟩ := t
+    simp only at hk
+    simp only []
+    split <;> (simp only []; split <;> first | omega | exact ⟨_, rfl⟩)
+  · exact h
+
+theorem digit_or_dot_facts (c : UInt8) (h : isdigit c = true ∨ c = 46) :
+    tolower c ≠ 120 ∧ tolower c ≠ 110 ∧ tolower c ≠ 105 ∧ isspace c = false ∧ c ≠ 45 ∧ c ≠ 43 := by
+  revert h; revert c; apply UInt8.forall_of_fin; decide +kernel
+
+/-- the float collection loop stops -/
+theorem collectFloat_stop_dec (rest : Bytes) (gd : Bool)
+    (h1 : isdigit (hd rest) = false) (h2 : tolower (hd rest) ≠ 101) :
+    collectFloat rest ⟨gd, false, true, false, false⟩ = ([], rest) := by
+  cases rest with
+  | nil => rfl
+  | cons c r =>
+    simp only [hd_cons] at h1 h2
+    simp [collectFloat, h1, h2]
+
+/-- the float collection loop on `digits . digits` -/
+theorem collectFloat_dec (ds fr rest : Bytes) (gd : Bool) (hds : ∀ c ∈ ds, isdigit c = true)
+    (hfr : ∀ c ∈ fr, isdigit c = true)
+    (h1 : isdigit (hd rest) = false) (h2 : tolower (hd rest) ≠ 101) :
+    collectFloat (ds ++ 46 :: (fr ++ rest)) ⟨gd, false, false, false, false⟩ = (ds ++ 46 :: fr, rest) := by
+  rw [collectFloat_digits ds _ hds]
+  simp only [Bool.false_and]
+  rw [collectFloat_dot, collectFloat_digits fr _ hfr]
+  simp only [Bool.false_and]
+  rw [collectFloat_stop_dec rest _ h1 h2]
+  simp
+
+/-- `%f` / `%lf` of sscanf on `[-]digits.digits`: everything is consumed and a value is delivered -/
+theorem scanFloat_dec (F : FFmt) (neg : Bool) (d : UInt8) (ds fr rest : Bytes)
+    (hd0 : isdigit d = true) (hds : ∀ c ∈ ds, isdigit c = true) (hfr : ∀ c ∈ fr, isdigit c = true)
+    (h1 : isdigit (hd rest) = false) (h2 : tolower (hd rest) ≠ 101) :
+    ∃ v, scanFloat F ((if neg then [45] else []) ++ d :: (ds ++ 46 :: (fr ++ rest))) = some (v, rest) := by
+  obtain ⟨_, t110, t105, hsp, h45, h43⟩ := digit_or_dot_facts d (Or.inl hd0)
+  have hnext : tolower (hd (ds ++ 46 :: (fr ++ rest))) ≠ 120 := by
+    cases ds with
+    | nil => simp; decide
+    | cons c t => exact (digit_or_dot_facts c (Or.inl (hds c (by simp)))).1
+  obtain ⟨v, hv⟩ := strtodMag_some F d (ds ++ 46 :: fr) hd0
+  have hsp45 : isspace 45 = false := by decide
+  have hall : ∀ c ∈ d :: ds, isdigit c = true := by
+    intro c hc; simp at hc; rcases hc with rfl | hc; exact hd0; exact hds c hc
+  have hcf1 := collectFloat_dec ds fr rest true hds hfr h1 h2
+  have hcf2 := collectFloat_dec (d :: ds) fr rest false hall hfr h1 h2
+  simp only [List.cons_append] at hcf2
+  have hne : (d :: (ds ++ 46 :: fr)) ≠ [] := by simp
+  unfold scanFloat
+  cases neg
+  · simp only [Bool.false_eq_true, ↓reduceIte, List.nil_append, skipSpace, hsp]
+    by_cases h48 : d = 48
+    · subst h48
+      refine ⟨v.1, ?_⟩
+      simp [hnext, hcf1, hv, t110, t105]
+    · refine ⟨v.1, ?_⟩
+      simp [h48, h45, h43, t110, t105, hcf2, hv]
+  · simp only [↓reduceIte, List.cons_append, List.nil_append, skipSpace, hsp45, Bool.false_eq_true]
+    by_cases h48 : d = 48
+    · subst h48
+      refine ⟨F.signBit + v.1, ?_⟩
+      simp [hnext, hcf1, hv, t110, t105]
+    · refine ⟨F.signBit + v.1, ?_⟩
+      simp [h48, t110, t105, hcf2, hv]
+
+theorem fmtNat_shape (n : Nat) :
+    ∃ d ds, fmtNat n = d :: ds ∧ isdigit d = true ∧ (∀ c ∈ ds, isdigit c = true) ∧ (d = 48 → ds = []) := by
+  unfold fmtNat
+  by_cases h : n = 0
+  · subst h; exact ⟨48, [], by simp, by decide, by simp, fun _ => rfl⟩
+  · simp only [h, ↓reduceIte]
+    obtain ⟨d, ds, he, hd1, hd2⟩ := decDigits_head n (by omega)
+    refine ⟨d, ds, he, hd1, ?_, fun h48 => absurd h48 hd2⟩
+    intro c hc
+    exact decDigits_all_digit n c (by rw [he]; simp [hc])
+
+/-- the shape of `%#.Nf` output for a finite double: sign, integer part, ".", N digits -/
+theorem fmtF_fin (p B : Nat) (hfin : f64.expField B ≠ 2047) :
+    ∃ n fr, fmtF true p B = (if f64.sign B then [45] else []) ++ fmtNat n ++ 46 :: fr ∧
+      (∀ c ∈ fr, isdigit c = true) ∧ fr.length = p := by
+  have hmax : f64.expMax = 2047 := by decide
+  have hbody : ∀ q : Nat, ∃ fr, (let ip := fmtNat (q / 10 ^ p)
+      if p = 0 then (if true then ip ++ [46] else ip)
+      else ip ++ 46 :: padZero p (if q % 10 ^ p = 0 then [] else decDigitsAux (q % 10 ^ p) [])) =
+        fmtNat (q / 10 ^ p) ++ 46 :: fr ∧ (∀ c ∈ fr, isdigit c = true) ∧ fr.length = p := by
+    intro q
+    by_cases hp : p = 0
+    · subst hp; exact ⟨[], by simp, by simp, rfl⟩
+    · simp only [hp, ↓reduceIte]
+      have hlt : q % 10 ^ p < 10 ^ p := Nat.mod_lt _ (Nat.pow_pos (by decide))
+      by_cases h0 : q % 10 ^ p = 0
+      · simp only [h0, ↓reduceIte]
+        exact ⟨_, rfl, padZero_all _ _ _ (by decide) (by simp), padZero_length _ _ (by simp)⟩
+      · simp only [h0, ↓reduceIte]
+        exact ⟨_, rfl, padZero_all _ _ _ (by decide) (decDigits_all_digit _),
+          padZero_length _ _ (decDigits_length p _ hlt)⟩
+  unfold fmtF
+  rcases classify_fin f64 B (by rw [hmax]; exact hfin) with ⟨_, hc⟩ | ⟨_, hc⟩
+  · obtain ⟨fr, h1, h2, h3⟩ := hbody 0
+    refine ⟨0 / 10 ^ p, fr, ?_, h2, h3⟩
+    simp only [hc]
+    simp only [] at h1
+    rw [h1]; simp
+  · obtain ⟨fr, h1, h2, h3⟩ := hbody (scaledRound (f64.sig B) (f64.exq B) p)
+    refine ⟨scaledRound (f64.sig B) (f64.exq B) p / 10 ^ p, fr, ?_, h2, h3⟩
+    simp only [hc]
+    simp only [] at h1
+    rw [h1]; simp
+
+/-! ### integer conversions on float texts -/
+
+theorem takeDigits_nondigit (base : Nat) (r : Bytes) (w : Option Nat) (h : digitOk base (hd r) = false) :
+    takeDigits base r w = ([], r) := by
+  cases r with
+  | nil => rfl
+  | cons c t => simp only [hd_cons] at h; simp [takeDigits, h]
+
+/-- "-0" with `%d` / `%i` -/
+theorem scanInt_negzero (conv : IntConv) (hconv : conv ≠ .x) (r : Bytes)
+    (h1 : isdigit (hd r) = false) (h2 : tolower (hd r) ≠ 120) :
+    scanInt conv none (45 :: 48 :: r) = some (0, r) := by
+  have h45sp : isspace 45 = false := by decide
+  have hd8 : digitOk 8 (hd r) = false := by simp [digitOk, h1]
+  have hd10 : digitOk 10 (hd r) = false := by simp [digitOk, h1]
+  unfold scanInt
+  simp only [skipSpace, h45sp, Bool.false_eq_true, ↓reduceIte]
+  cases conv with
+  | x => exact absurd rfl hconv
+  | d => simp [intPrefix10_zero r none rfl, wDec, takeDigits_nondigit 10 r none hd10, digitsVal, intValue, clampI64]
+  | i => simp [intPrefix, wOk, wDec, h2, takeDigits_nondigit 8 r none hd8, digitsVal, intValue, clampI64]
+
+theorem exists_of_map_snd {α β : Type} (o : Option (α × β)) (r : β) (h : o.map Prod.snd = some r) :
+    ∃ v, o = some (v, r) := by
+  cases o with
+  | none => simp at h
+  | some p => obtain ⟨a, b⟩ := p; simp at h; subst h; exact ⟨a, rfl⟩
+
+/-- what follows the leading digit of a hexadecimal float text -/
+def hexRest (fr : Bytes) (eneg : Bool) (eds : Bytes) : Bytes :=
+  (if fr.isEmpty then [] else 46 :: fr) ++ 112 :: (if eneg then 45 else 43) :: eds
+
+theorem hexBody_eq (lead : UInt8) (fr : Bytes) (eneg : Bool) (eds : Bytes) :
+    hexBody lead fr eneg eds = lead :: hexRest fr eneg eds := rfl
+
+theorem hexRest_hd (fr : Bytes) (eneg : Bool) (eds tail : Bytes) :
+    hd (hexRest fr eneg eds ++ tail) = 46 ∨ hd (hexRest fr eneg eds ++ tail) = 112 := by
+  unfold hexRest
+  by_cases h : fr.isEmpty = true
+  · right; simp [h]
+  · left; simp [h]
+
+theorem hexTxt_length (neg : Bool) (lead : UInt8) (fr : Bytes) (eneg : Bool) (eds : Bytes) :
+    (hexTxt neg lead fr eneg eds).length = (if neg then 1 else 0) + 3 + (hexRest fr eneg eds).length ∧
+    2 ≤ (hexRest fr eneg eds).length := by
+  rw [hexTxt_eq, hexBody_eq]
+  unfold hexRest
+  cases neg <;> simp <;> omega
+
+/-- `%i` on a hexadecimal float text reads `0x` and the leading digit -/
+theorem scanInt_i_hexTxt (neg : Bool) (lead : UInt8) (fr : Bytes) (eneg : Bool) (eds tail : Bytes)
+    (hlead : isdigit lead = true) :
+    ∃ v, scanInt .i none (hexTxt neg lead fr eneg eds ++ tail) = some (v, hexRest fr eneg eds ++ tail) := by
+  have h45sp : isspace 45 = false := by decide
+  have h48sp : isspace 48 = false := by decide
+  have ht120 : tolower 120 = 120 := by decide
+  have hxl : isxdigit lead = true := by simp [isxdigit, hlead]
+  have hnx : digitOk 16 (hd (hexRest fr eneg eds ++ tail)) = false := by
+    rcases hexRest_hd fr eneg eds tail with h | h <;> rw [h] <;> decide
+  have htd : takeDigits 16 (lead :: (hexRest fr eneg eds ++ tail)) none = ([lead], hexRest fr eneg eds ++ tail) := by
+    simp [takeDigits, wOk, wDec, digitOk, hxl, takeDigits_nondigit 16 _ none hnx]
+  rw [hexTxt_eq, hexBody_eq]
+  unfold scanInt
+  cases neg
+  · simp only [Bool.false_eq_true, ↓reduceIte, List.nil_append, List.cons_append, skipSpace, h48sp]
+    apply exists_of_map_snd
+    simp [intPrefix, wOk, wDec, ht120, htd]
+  · simp only [↓reduceIte, List.cons_append, List.nil_append, skipSpace, h45sp, Bool.false_eq_true]
+    apply exists_of_map_snd
+    simp [intPrefix, wOk, wDec, ht120, htd]
+
+/-- `%d` on a hexadecimal float text reads the `0` -/
+theorem scanInt_d_hexTxt (neg : Bool) (lead : UInt8) (fr : Bytes) (eneg : Bool) (eds tail : Bytes) :
+    ∃ v, scanInt .d none (hexTxt neg lead fr eneg eds ++ tail) =
+      some (v, 120 :: lead :: (hexRest fr eneg eds ++ tail)) := by
+  have h45sp : isspace 45 = false := by decide
+  have h48sp : isspace 48 = false := by decide
+  have hnx : digitOk 10 (hd (120 :: lead :: (hexRest fr eneg eds ++ tail))) = false := by
+    rw [hd_cons]; decide
+  rw [hexTxt_eq, hexBody_eq]
+  unfold scanInt
+  cases neg
+  · simp only [Bool.false_eq_true, ↓reduceIte, List.nil_append, List.cons_append, skipSpace, h48sp]
+    apply exists_of_map_snd
+    simp [intPrefix10_zero _ none rfl, wDec, takeDigits_nondigit 10 _ none hnx]
+  · simp only [↓reduceIte, List.cons_append, List.nil_append, skipSpace, h45sp, Bool.false_eq_true]
+    apply exists_of_map_snd
+    simp [intPrefix10_zero _ none rfl, wDec, takeDigits_nondigit 10 _ none hnx]
+
+/-- libc-level statement of the lossless round trip of a finite `float`:
+    `sscanf("%f")` of `printf("%a", (double)f)` followed by ")" gives `f` back bit-exactly -/
+theorem float_lossless_roundtrip (b : UInt32) (hfin : f32.expField b.toNat ≠ 255) (rest : Bytes) :
+    scanFloat f32 (fmtA (promote b.toNat) ++ 41 :: rest) = some (b.toNat, 41 :: rest) :=
+  scanFloat_fmtA_f32 b.toNat b.toNat_lt hfin rest
+
+/-- libc-level statement of the lossless round trip of a finite `double` -/
+theorem double_lossless_roundtrip (b : UInt64) (hfin : f64.expField b.toNat ≠ 2047) (rest : Bytes) :
+    scanFloat f64 (fmtA b.toNat ++ 41 :: rest) = some (b.toNat, 41 :: rest) :=
+  scanFloat_fmtA_f64 b.toNat b.toNat_lt hfin rest
 
 end Rtosc.Libc
